@@ -142,6 +142,11 @@ def check_hints(ctx, S, parsed, ckey):
         gu = as_grid_ufunc()(f)
         if str(gu.signature) != want:
             ctx.violation("hints-equal-string", f"type hints for {want!r} denote {str(gu.signature)!r}", desc={"text": want})
+            return
+        # the hints denote that signature every time the function is wrapped (say, with other options), not only the first
+        gu2 = as_grid_ufunc(boundary_width=None)(f)
+        if str(gu2.signature) != want:
+            ctx.violation("hints-equal-string", f"type hints for {want!r} denote {str(gu2.signature)!r} when the same function is wrapped a second time", desc={"text": want})
     except Exception as e:
         ctx.violation("hints-equal-string", f"type hints for {want!r} raised {type(e).__name__}: {str(e)[:120]}", desc={"text": want})
 
